@@ -34,7 +34,11 @@ Inductive op :=
 | OpCoRangeShape (lo hi step : Z) (ref : bool)
 | OpProject (k b : Z) (iv : option (Z * Z)) (sp : option Z)   (* project(c -> k*c+b, interval) *)
 | OpPrune (p : pred) (sp : option Z)                 (* prune(pred) *)
-| OpWindow (k b : Z) (iv : option (Z * Z)) (lo hi : option Z).   (* project(...).iterRange(lo, hi) *)
+| OpWindow (k b : Z) (iv : option (Z * Z)) (lo hi : option Z)    (* project(...).iterRange(lo, hi) *)
+(* a history on one fiber object (theme T3): read-only queries (getActive, maxCoord, getShape ...),
+   then iterRangeShapeRef(lo, hi, step) run to the end - which may grow the fiber, also past its
+   last coordinate -, then the operation o on the same object; the observation is that of o *)
+| OpGrow (lo hi step : Z) (o : op).
 
 Record c07_case := {
   k_fiber  : fiber;
@@ -101,7 +105,7 @@ Definition m_co (f : fiber) (others : list fib) (cs : list Z) (ref : bool) : V :
                    Vl V_co (co_with_origin d (snd r2) (fst r2))]) (snd r2) 0
   else obs_op (VL [Vl V_co (co_loop d cs fs); Vl V_co (co_loop d cs fs)]) fs 0.
 
-Definition model_op (f : fiber) (others : list fib) (o : op) : V :=
+Definition model_op1 (f : fiber) (others : list fib) (o : op) : V :=
   match o with
   | OpOcc sp => let r := iter_occupancy f sp in
                 m_single f r (saved_after sp (match r with Some ys => ys | None => [] end))
@@ -117,6 +121,15 @@ Definition model_op (f : fiber) (others : list fib) (o : op) : V :=
   | OpProject k b iv sp => m_lazy f (project f k b iv sp) (project_saved f k b iv sp)
   | OpPrune p sp => m_lazy f (prune f (pred_eval p) sp) (prune_saved f sp)
   | OpWindow k b iv lo hi => m_single f (project_window f k b iv lo hi) 0
+  | OpGrow _ _ _ _ => VL []      (* handled by model_op *)
+  end.
+
+(* read-only queries change nothing; iterRangeShapeRef leaves the fiber shape_ref_loop computes *)
+Fixpoint model_op (f : fiber) (others : list fib) (o : op) : V :=
+  match o with
+  | OpGrow lo hi step o' =>
+    model_op (set_es f (snd (shape_ref_loop (f_d f) (zrange lo hi step) (f_es f)))) others o'
+  | _ => model_op1 f others o
   end.
 
 Definition c07_model (c : c07_case) : V :=
@@ -204,7 +217,7 @@ Definition s_obs (res : list V) (post : list fib) : V := VL [VL res; Vl V_snap p
 Definition s_lazy (f : fiber) (ys : list yelem) : V :=
   s_obs [Vl V_y ys; Vl V_y ys; V_content (f_d f) (map (fun y => (ycoord y, ypay y)) ys)] [f_es f].
 
-Definition spec_op (f : fiber) (others : list fib) (o : op) : V :=
+Definition spec_op1 (f : fiber) (others : list fib) (o : op) : V :=
   let d := f_d f in
   let es := f_es f in
   let fs := es :: others in
@@ -228,6 +241,16 @@ Definition spec_op (f : fiber) (others : list fib) (o : op) : V :=
   (* the window of the projection: its elements with the new coordinate in [lo, hi) *)
   | OpWindow k b iv lo hi =>
     s_obs [Vl V_y (filter (fun y => in_range lo hi (ycoord y)) (spec_project f k b iv))] [es]
+  | OpGrow _ _ _ _ => VL []
+  end.
+
+(* a traversal names its slice of the content the fiber has when it runs: after the reference
+   traversal that is the fiber with exactly the visited absent coordinates added *)
+Fixpoint spec_op (f : fiber) (others : list fib) (o : op) : V :=
+  match o with
+  | OpGrow lo hi step o' =>
+    spec_op (set_es f (spec_post (f_d f) (f_es f) (zrange lo hi step))) others o'
+  | _ => spec_op1 f others o
   end.
 
 Definition c07_spec (c : c07_case) : V := Vl (spec_op (k_fiber c) (k_others c)) (k_ops c).
@@ -257,7 +280,7 @@ Definition legal_sp (d : Z) (es : fib) (low : Z -> bool) (sp : option Z) : bool 
 Definition below (lo : option Z) (c : Z) : bool :=
   match lo with Some l => c <? l | None => false end.
 
-Definition wf_op (f : fiber) (o : op) : bool :=
+Definition wf_op1 (f : fiber) (o : op) : bool :=
   let d := f_d f in
   let es := f_es f in
   match o with
@@ -282,6 +305,17 @@ Definition wf_op (f : fiber) (o : op) : bool :=
                     | Some q => (0 <=? q) && (q <? zlen es) &&
                                 (fmt_U f || legal_sp d es (below None) sp)
                     end
+  | OpGrow _ _ _ _ => false
+  end.
+
+(* histories are explored on free-standing fibers (an owning rank keeps the shape it estimated when
+   the fiber joined it, which the model does not track) *)
+Fixpoint wf_op (f : fiber) (o : op) : bool :=
+  match o with
+  | OpGrow lo hi step o' =>
+    (1 <=? step) && match f_owner f with None => true | Some _ => false end &&
+    wf_op (set_es f (spec_post (f_d f) (f_es f) (zrange lo hi step))) o'
+  | _ => wf_op1 f o
   end.
 
 Definition c07_wf (c : c07_case) : bool :=
